@@ -4,6 +4,7 @@ import (
 	"encoding/binary"
 	"errors"
 	"fmt"
+	"io"
 )
 
 // HeaderHash
@@ -1055,7 +1056,8 @@ func (bf *Bitfield) Decode(d *Decoder) error {
 	cLog(Cyan, "Decoding Bitfield")
 
 	bytes := make([]byte, AvailBitfieldBytes)
-	_, err := d.buf.Read(bytes)
+	// ReadFull: a plain Read returns what is left without an error, which accepted truncated bitfields
+	_, err := io.ReadFull(d.buf, bytes)
 	if err != nil {
 		return err
 	}
